@@ -114,6 +114,11 @@ Definition disp_calls (h : hinfo) : call :=
   end.
 
 Section Writer.
+  Variable lines_any_message : bool.
+  (* which single parts get a line count behind their size (singlePartStructure):
+       false: type text, and message/rfc822                 -- the code as it is (RFC 3501 body-type-text / body-type-msg)
+       true : type text, and every type message/...          (what a lost sub-type test would do)
+     Gen/FactsStructure.v (T1) says which condition the source contains. *)
   Variable msg_single : bool.
   (* how structure() chooses between singlePartStructure and the multipart form:
        false: `len(children) == 0`                      -- the code as it is; the children of a message/rfc822
@@ -123,6 +128,8 @@ Section Writer.
   Variable ext : bool.   (* true: BODYSTRUCTURE (extension data included), false: BODY *)
 
   Definition only_ext (cs : list call) : list call := if ext then cs else [].
+  Definition has_lines (h : hinfo) : bool :=
+    is_text h || (if lines_any_message then bytes_eqb (h_type h) str_msg else is_msg h).
 
   (* child_calls t: childStructures over section.Children() (rfc822 load(): a message/rfc822 section has the children
      of its embedded message); structure_calls t: the calls of structure(t) *)
@@ -142,7 +149,7 @@ Section Writer.
                  | None => []
                  end
             else [])
-        ++ (if is_text h || is_msg h then [CNum lines] else [])
+        ++ (if has_lines h then [CNum lines] else [])
         ++ only_ext [CStr (h_md5 h); disp_calls h; CStr (h_lang h); CStr (h_loc h)]
       | _ :: _ =>
         cc ++ [CStr (h_sub h)]
@@ -188,10 +195,10 @@ Section Exec.
   (* imap.Envelope: newParamListWithoutGroup(); envelope(header, &paramList, writer) *)
   Definition write_envelope (e : envinfo) : bytes := exec (envelope_calls Adj e) true.
   (* imap.Structure: c := newParamListWithGroup(writer); structure(section, &c, writer); c.finish(writer) *)
-  Definition write_structure (msg_single ext : bool) (t : mtree) : bytes :=
-    exec (CList Adj (structure_calls msg_single ext t)) true.
-  Definition write_body (msg_single : bool) (t : mtree) : bytes := write_structure msg_single false t.
-  Definition write_bodystructure (msg_single : bool) (t : mtree) : bytes := write_structure msg_single true t.
+  Definition write_structure (lines_any_message msg_single ext : bool) (t : mtree) : bytes :=
+    exec (CList Adj (structure_calls lines_any_message msg_single ext t)) true.
+  Definition write_body (la msg_single : bool) (t : mtree) : bytes := write_structure la msg_single false t.
+  Definition write_bodystructure (la msg_single : bool) (t : mtree) : bytes := write_structure la msg_single true t.
 End Exec.
 
 (* ---------- strconv.Quote for the byte strings the generator uses (ASCII; bytes >= 0x80 are kept: the generator only
